@@ -54,6 +54,8 @@ def _src_key(op_or_place):
         return pl["l"]
     if len(pl["proj"]) == 1 and pl["proj"][0].get("p") == "field":
         return (pl["l"], pl["proj"][0]["i"])
+    if len(pl["proj"]) == 2 and pl["proj"][0].get("p") == "downcast" and pl["proj"][1].get("p") == "field":
+        return (pl["l"], pl["proj"][0]["name"], pl["proj"][1]["i"])   # payload field of an enum variant
     return None
 
 
@@ -82,14 +84,18 @@ def _step(env, st, roots=None):
         if src is not None and src in env:
             new[l] = (env[src], src)
         if isinstance(src, int):
-            for k in list(env):   # a whole tuple moved: its fields keep their knowledge
+            for k in list(env):   # a whole tuple / enum value moved: its fields keep their knowledge
                 if isinstance(k, tuple) and k[0] == src:
-                    new[(l, k[1])] = (env[k], k)
+                    new[(l,) + k[1:]] = (env[k], k)
         c = _const_bool(st)
         if c is not None:
             new[l] = (c, None)
     elif r == "aggregate" and rv.get("ak") == "adt" and rv.get("variant") is not None:
         new[l] = (("variant", rv["variant"]), None)
+        for i, op in enumerate(rv.get("ops", [])):   # what is known about the payload travels with it
+            src = _src_key(op)
+            if src is not None and src in env:
+                new[(l, rv["variant"], i)] = (env[src], src)
     elif r == "aggregate" and rv.get("ak") == "tuple":
         for i, op in enumerate(rv["ops"]):
             if op["o"] == "const" and isinstance(op["c"].get("v"), bool):
@@ -139,6 +145,18 @@ def _call_knowledge(body, env, t):
     return None
 
 
+def _branch_payload(env, roots, src, dest):
+    """Try::branch(src) -> dest: Continue carries the Ok / Some payload"""
+    if src is None:
+        return
+    for (var, cont) in (("Ok", "Continue"), ("Some", "Continue")):
+        k = (src, var, 0)
+        if k in env:
+            env[(dest, cont, 0)] = env[k]
+            if roots is not None:
+                roots[(dest, cont, 0)] = roots.get(k, frozenset()) | {dest}
+
+
 def _seed_env(body, bl, roots):
     env = {}
     for st in bl["stmts"]:
@@ -186,8 +204,11 @@ def thread_bools(body):
             if k is None:
                 continue
             env = dict(env)
+            _kill(env, t0["dest"]["l"], roots)
             env[t0["dest"]["l"]] = k
             roots[t0["dest"]["l"]] = frozenset([t0["dest"]["l"]])
+            if t0["callee"].get("path") == TRY_BRANCH:
+                _branch_payload(env, roots, _plain_local(t0["args"][0]), t0["dest"]["l"])
             start = t0["target"]
         else:
             continue
@@ -232,7 +253,10 @@ def thread_bools(body):
             elif t["t"] == "call":
                 k = _call_knowledge(body, env2, t)
                 if k is not None:
+                    _kill(env2, t["dest"]["l"], roots2)
                     env2[t["dest"]["l"]] = k
+                    if t["callee"].get("path") == TRY_BRANCH:
+                        _branch_payload(env2, roots2, _plain_local(t["args"][0]), t["dest"]["l"])
                     src = _plain_local(t["args"][0])
                     roots2[t["dest"]["l"]] = (roots2.get(src, frozenset()) if src is not None else frozenset()) | {t["dest"]["l"]}
                     call_dup = copy.deepcopy(t)
